@@ -74,7 +74,15 @@ def patch(
             module_name = ".".join(im.split(".")[:-1])
             fn_name = im.split(".")[-1]
             # get module or try to import it if not loaded yet
-            module = sys.modules.get(module_name) or importlib.import_module(module_name)
+            module = sys.modules.get(module_name)
+            if not module:
+                module = importlib.import_module(module_name)
+                # it was imported while the standard targets are mocked, so whatever it imported from them are the
+                # mocks, and it would keep them after they have been stopped: put back the originals on exit, also
+                # when a later target makes patch() fail
+                for name, var in list(vars(module).items()):
+                    if isinstance(var, mock.MagicMock) and (original := originals.get(id(var))):
+                        stack.callback(setattr, module, name, original)
             fn = module.__dict__.get(fn_name)
             assert fn, f"No module var {im}"
 
